@@ -24,7 +24,7 @@ def oracle_c11(program, po, so):
                 if "error" in api:
                     diffs.append(dict(kind="metadata_accessor_error", stmt=st["id"], op=st["op"], backend=be, exc=api["error"]))
                 else:
-                    if api["iter"] != cols or api["dir"] != sorted(cols) or api["len"] != len(cols) or not api["contains"]:
+                    if api["iter"] != cols or api["dir"] != sorted(cols) or api["len"] != len(cols) or not api["contains"] or not api.get("contains_refs", True):
                         diffs.append(dict(kind="metadata_accessors_disagree", stmt=st["id"], op=st["op"], backend=be, columns=cols, api=api))
                 if c.get("from_ast_diff"):
                     diffs.append(dict(kind="accumulated_vs_recomputed", stmt=st["id"], op=st["op"], backend=be, fields=c["from_ast_diff"]))
